@@ -851,7 +851,7 @@ class VM:
             compiled_func = self.stack.pop()
             if isinstance(compiled_func, CompiledFunction):
                 js_func = JSFunction(
-                    name=compiled_func.name,
+                    name=compiled_func.name or compiled_func.inferred_name,
                     params=compiled_func.params,
                     bytecode=compiled_func.bytecode,
                 )
@@ -1566,7 +1566,7 @@ class VM:
 
             # Create a new function that wraps the original
             bound_func = JSFunction(
-                name=func.name,
+                name="bound " + func.name,
                 params=getattr(func, "_original_func", func).params[
                     len(bound_args) :
                 ],  # Remaining params after bound args
